@@ -46,6 +46,12 @@ func NewGeometry(g orb.Geometry) *Geometry {
 // Geometry returns the orb.Geometry for the geojson Geometry.
 // This will convert the "Geometries" into a orb.Collection if applicable.
 func (g *Geometry) Geometry() orb.Geometry {
+	if g == nil {
+		// a null member of "geometries", which is also what a nested
+		// empty collection is marshalled as.
+		return nil
+	}
+
 	if g.Coordinates != nil {
 		return g.Coordinates
 	}
